@@ -77,16 +77,19 @@ def collect_sets(tree, out):
                 collect_sets(b, out)
         elif op == "AT":
             pass
+        elif op in ("ASSERT", "ASSERT_NOT"):
+            collect_sets(av[1], out)
         else:
-            raise Unsupported("regex construct %s" % op)
+            pass      # unsupported constructs are reported per rule (Rule raises Unsupported), not here
 
 
 WORD = ["CATEGORY", "CATEGORY_WORD"]
 
 
 class Branch:
-    def __init__(self, items, wb):
+    def __init__(self, items, wb, ahead=None):
         self.items, self.wb = items, wb     # items: list of ("set", spec) | ("rep", spec, lo, greedy)
+        self.ahead = ahead                  # trailing one-character lookahead: ("not", spec) | ("is", spec) | None
 
 
 def flatten(tree):
@@ -100,10 +103,10 @@ def flatten(tree):
 
 
 def to_branch(tree):
-    items, wb = [], False
+    items, wb, ahead = [], False, None
     for i, (op, av) in enumerate(tree):
-        if wb:
-            raise Unsupported("\\b not at the end of the pattern")
+        if wb or ahead is not None:
+            raise Unsupported("\\b / lookahead not at the end of the pattern")
         if op in ("LITERAL", "NOT_LITERAL"):
             items.append(("set", [op, av]))
         elif op == "ANY":
@@ -121,16 +124,22 @@ def to_branch(tree):
             items.append(("rep", spec, lo, op == "MAX_REPEAT"))
         elif op == "SUBPATTERN":
             inner = to_branch(av[3])
-            if inner.wb:
-                raise Unsupported("\\b inside a group")
+            if inner.wb or inner.ahead is not None:
+                raise Unsupported("\\b / lookahead inside a group")
             items.extend(inner.items)
         elif op == "AT":
             if av != "AT_BOUNDARY":
                 raise Unsupported("anchor %s" % av)
             wb = True
+        elif op in ("ASSERT", "ASSERT_NOT"):
+            direction, sub = av
+            if direction != 1 or len(sub) != 1 or sub[0][0] not in ("LITERAL", "NOT_LITERAL", "ANY", "IN", "CATEGORY"):
+                raise Unsupported("lookaround other than a one-character lookahead")
+            s0 = sub[0]
+            ahead = ("not" if op == "ASSERT_NOT" else "is", ["ANY"] if s0[0] == "ANY" else [s0[0], s0[1]])
         else:
             raise Unsupported("regex construct %s" % op)
-    return Branch(items, wb)
+    return Branch(items, wb, ahead)
 
 
 class Rule:
@@ -205,6 +214,12 @@ class Rule:
     def follow(self, br):
         a = self.alpha
         allw = DFA.all_words(a.k, a.all())
+        if br.ahead is not None:
+            kind, spec = br.ahead
+            inset = set(a.symbols(spec))
+            if kind == "not":      # (?!x): end of text, or a next character outside the set
+                return DFA.eps(a.k) | dfa.cat(DFA.sym(a.k, [c for c in a.all() if c not in inset]), allw)
+            return dfa.cat(DFA.sym(a.k, sorted(inset)), allw)
         if not br.wb:
             return allw
         # \b after the match: the last matched character is a word character iff the next one is not (or end).
